@@ -90,6 +90,39 @@ func unexported() (int, int) { return 0, 0 }
 
 func archDependent(x int, y int16) bool { return int16(x) < y }
 
+// function-local types that share a name but not a size
+func localSmall(xs []int) int {
+	type item struct{ a int32 }
+	n := 0
+	for _, it := range []item{{1}, {2}} {
+		n += int(it.a)
+	}
+	f := func(it item) int { return int(it.a) }
+	return n + f(item{}) + len(xs)
+}
+
+func localBig(xs []int) int {
+	type item struct{ a [40]int64 }
+	n := 0
+	for _, it := range []item{{}, {}} {
+		n += int(it.a[0])
+	}
+	var arr [3]item
+	for _, it := range arr {
+		n += int(it.a[1])
+	}
+	return n + len(xs)
+}
+
+func localMid(xs []int) int {
+	type item struct{ a, b int64 }
+	n := 0
+	for _, it := range []item{{1, 2}} {
+		n += int(it.a + it.b)
+	}
+	return n + len(xs)
+}
+
 type padded struct {
 	a byte
 	b int64
